@@ -337,11 +337,34 @@ func evalScript(it item) *outcome {
 		}
 	}
 
+	// ---- D: lambda JSON
+	lams := []any{}
+	for _, l := range lambdasOf(n0) {
+		lams = append(lams, lambdaStages(l, false, o))
+	}
+	ln["lams"] = lams
+
+	// pipeline/tick and pipeline JSON deviate from the property in many catalogued ways; the
+	// catalogue (TickExprKnown.tla) is complete for the deterministic sweeps only, so seeded
+	// random compositions are verdict-level for Format and lambda JSON and observed here
+	skip := rt.M{"err": "", "pe": "", "iso": "", "sigs": []any{}, "skipped": true}
+	if it.Cls == "random" {
+		ln["b"], ln["cb"] = skip, skip
+		ln["c"] = rt.M{"merr": "", "uerr": "", "iso": "", "rejson": false, "sigs": []any{}, "skipped": true}
+		oo := &outcome{}
+		renderAndCompare(p0, p0, it.Edge, oo)
+		for _, sg := range oo.Sigs {
+			o.Devs = append(o.Devs, "obs:random:"+sg.Sig)
+			o.Note = append(o.Note, "obs:random:"+sg.Sig+": "+sg.Note)
+		}
+		return o
+	}
+
 	// ---- B: pipeline -> TICKscript (pipeline/tick) -> pipeline
 	ln["b"] = renderAndCompare(p0, p0, it.Edge, o)
 
 	// ---- C: pipeline -> JSON -> pipeline, and that pipeline -> TICKscript -> pipeline
-	c := rt.M{"merr": p0.JErr, "uerr": "", "iso": "", "rejson": false, "sigs": []any{}}
+	c := rt.M{"merr": p0.JErr, "uerr": "", "iso": "", "rejson": false, "sigs": []any{}, "skipped": false}
 	ln["c"] = c
 	ln["cb"] = rt.M{"err": "", "pe": "", "iso": "", "sigs": []any{}, "skipped": true}
 	sigs := []any{}
@@ -376,13 +399,6 @@ func evalScript(it item) *outcome {
 		}
 	}
 	c["sigs"] = sigs
-
-	// ---- D: lambda JSON
-	lams := []any{}
-	for _, l := range lambdasOf(n0) {
-		lams = append(lams, lambdaStages(l, false, o))
-	}
-	ln["lams"] = lams
 	return o
 }
 
